@@ -93,10 +93,12 @@ pub fn gen(tier: &str, rng: &mut Rng, emit: &mut dyn FnMut(String)) {
         }
     }
     let n = if tier == "thorough" { 50_000 } else { 3_000 };
-    for _ in 0..n {
-        let k = rng.below(6);
-        let base: String = (0..k).map(|_| format!("/{}", rfc_escape(&super::token::random_text(rng, 3)))).collect();
-        let j = rng.below(4);
+    for i in 0..n {
+        // mostly short; every 25th pair has hundreds of tokens, every 40th has tokens of hundreds of bytes
+        let k = if i % 25 == 0 { 50 + rng.below(600) } else { rng.below(6) };
+        let tl = if i % 40 == 0 { 700 } else { 3 };
+        let base: String = (0..k).map(|_| format!("/{}", rfc_escape(&super::token::random_text(rng, tl)))).collect();
+        let j = if i % 25 == 0 { rng.below(300) } else { rng.below(4) };
         let suffix: String = (0..j).map(|_| format!("/{}", rfc_escape(&super::token::random_text(rng, 3)))).collect();
         let ext = format!("{base}{}", rfc_escape(&super::token::random_text(rng, 2))); // string extension, maybe not a token extension
         let other = format!("{base}{suffix}");
